@@ -10,16 +10,32 @@ def run(tier):
     n = 300 if tier == "quick" else 4000
     client.run_client(PID, tier, rep,
         design_cfgs=[("MC_Client_shutdown.cfg", ["StStep", "RtRecv", "RtHandOver", "StCloseFront", "StHandOver", "StEnd", "WdRecv", "ManagerDrop", "FeObserve"],
-                      "1 call + 1 subscription, each fault kind injected anywhere; every order of the send task, read task, watcher and front end")],
+                      "1 call + 1 subscription, each fault kind injected anywhere; every order of the send task, read task, watcher and front end"),
+                     ("MC_Client_live.cfg", [], "liveness under weak fairness (no state constraint): tasks gone ~> every started operation finished; "
+                      "a noticed fault ~> disconnected with a recorded cause")],
         asis=[("MC_Client_asis_F7.cfg", "Inv_NoPlaceholder", "front-end channel closed before the cause is recorded (F7)"),
               ("MC_Client_asis_F8.cfg", "Inv_NoPanic", "read task panics on id u64::MAX (F8)")],
         groups=["faulty", "route", "batch"], nscen=n)
+    # ---- supplementary robustness run (outside the specification's alphabet): mutated / extreme / arbitrary server bytes
+    import os
+    fz = os.path.join(rep.wd, "fuzz.ndjson")
+    nf = 1500 if tier == "quick" else 40000
+    vlib.vh(["record", "clientfuzz", "x", str(nf), fz], timeout=3000)
+    rows = vlib.read_ndjson(fz)
+    for r in rows:
+        if not r["ok"]:
+            rep.mismatch(r["key"], r["detail"])
+    rep.cov["fuzz_runs"] = len(rows)
+    rep.cov["evaluations"] += len(rows)
     rep.cov["rule"] = ("design: Inv_NoPlaceholder / Inv_SameCause / Inv_NoPanic / Inv_DisconnectedAfterFailure over every interleaving of the "
                        "shutdown steps with a send error, receive error, peer close, unparseable text or unmatched response at every point; "
                        "conformance: seeded scenarios with a fault injected at a random step (the in-memory transport's close() takes several "
                        "scheduler turns so the hand-over window is open), every later call, every pending call, is_connected and "
                        "on_disconnect must agree with the spec's recorded cause; a timeout, a panic of a background task or a future still "
-                       "pending at the end of a scenario is an unmatched event")
+                       "pending at the end of a scenario is an unmatched event; supplementary (not decided by the specification): mutated, "
+                       "truncated, duplicated and extreme server texts (ids at the u64 boundary, 5000-element arrays, deep nesting, wrong "
+                       "shapes) fed to a client with a call, a batch and a subscription pending - afterwards it must be healthy or cleanly "
+                       "disconnected with a cause, with no panic, stall, timeout or placeholder")
     return rep.finish()
 
 
